@@ -5,7 +5,7 @@ import random, itertools, collections
 PID = 'C11'
 HEADER = []
 T0 = 2000000000
-RULE = ('activation-order family: chains of depth 5-12 with side branches (and random trees), Zone::OnAllConfigLoaded re-run for all zones top-down / bottom-up / in random order, ancestor chains read back and relay steps routed over them; random zone trees (depth 1-4, 1-2 endpoints per zone, shuffled endpoint names, 0-2 global zones) x local identity x '
+RULE = ('net-chain / net-tree-global families (op rt_net): COMPLETE multi-hop runs of one event on the real code - pure chains of depth 2-14 (every target zone, originators above/inside/below the target) and zone trees (depth <= 5, <= 4 children per zone, forests) with a global-zone target, 1-2 endpoints per zone, random names; link sets: all directly related pairs / a few missing / a random half, plus links between unrelated endpoints; delivery schedule fifo / lifo / seeded random; at every node the real JsonRpcConnection::MessageHandler and either the verif::Relay handler (CanAccessObject test + SyncRelayMessage) or, for host targets, the REAL event::SetNextCheck handler chain through the asynchronous relay queue; checked by the extracted network oracle (nobody twice, fewer deliveries than endpoints, complete under the premise). activation-order family: chains of depth 5-12 with side branches (and random trees), Zone::OnAllConfigLoaded re-run for all zones top-down / bottom-up / in random order, ancestor chains read back and relay steps routed over them; random zone trees (depth 1-4, 1-2 endpoints per zone, shuffled endpoint names, 0-2 global zones) x local identity x '
         'connectivity row (none/all/related/random, optional second older connection) x origin (local, received from a connected '
         'peer through the real JsonRpcConnection::MessageHandler with every claimed originZone, hand-made MessageOrigin, anonymous client) '
         'x target (Host in any zone, the Zone object itself, CheckCommand in a global zone, no security object) x log flag; plus a '
@@ -16,8 +16,10 @@ TRUSTED = ['model: coq/Route/RtModel.v, RtLoad.v (transcription of ApiListener::
            'JsonRpcConnection::MessageHandler origin construction, Zone::CanAccessObject/IsChildOf)',
            'harness fixture harness/ops_rt.cpp: ApiListener constructed without PKI/sockets, m_Instance/identity/m_LocalEndpoint set per step, '
            'JsonRpcConnection objects over unconnected streams inserted into Endpoint::m_Clients, posted sends run by polling a harness-owned io_context',
-           'the network semantics (in-flight multiset, arbitrary delivery order, re-relay by the receiving endpoint) of the sweep theorems is model-only; '
-           'each of its steps (origin construction + relay) is what the per-step correspondence ties to the code',
+           'the network theorems quantify over a model-level network (in-flight multiset, arbitrary delivery order, re-relay by the receiving endpoint); '
+           'its steps (origin construction + relay) are tied to the code by the per-step correspondence, and whole runs by op rt_net: ONE process plays all '
+           'nodes in turn (identity, local endpoint and connection set switched per delivery; sound because SyncRelayMessage keeps no per-event state), '
+           'the harness holds the in-flight messages (the JSON the real code queued) and picks the schedule',
            'hook H1 (virtual clock) in lib/base/utility.cpp']
 ASSUMPTIONS = ['endpoint names sort like their numbers (harness names them e%03d)',
                'connectivity is symmetric in the network theorems (a TCP connection has two ends)',
